@@ -478,10 +478,6 @@ def shallow_same(mv, tv) -> bool:
     return type(mv) is type(tv) and mv == tv
 
 
-class Finding(Exception):
-    pass
-
-
 class Judge:
     """compares one live model value with the tagged tree; collects (sig, message) findings and
     evidence about what was seen"""
